@@ -109,6 +109,7 @@ def op? (cmd : String) (args : List Sexp) : Option Op :=
     let inv ← (match inv with
       | .list [.atom "inv", h] => do some (InvReq.inv (← h.asNat?))
       | .list [.atom "noamount", h] => do some (InvReq.inv (← h.asNat?))
+      | .list [.atom "forged", f, h] => do some (InvReq.forged (← f.asNat?) (← h.asNat?))
       | .atom "bad" => some InvReq.bad
       | _ => none)
     let mpp ← (match mpp with
